@@ -245,7 +245,7 @@ def run_scn(s, scr, idx):
                 pass
     hang = False
     # the process has to end: TMAX after the stop condition; a run on finite input without stop condition: 60 s
-    deadline_total = 90.0
+    deadline_total = 60.0
     while True:
         try:
             p.wait(timeout=0.25)
@@ -446,6 +446,23 @@ def _scenarios(chk, rng, tier, scr, model_ok, facts):
             # itself although the input never does
             data = b"".join(rdh_stream(rng, 3000, links=4, sysid=0x7F))
             scns.append(Scn("fatal-sysid", ["check", "sanity"], data, "endless", sched, ("none",)))
+    # E. the stop condition behind a FULL data queue (reader blocked in send), on every arm of `process`:
+    #    consumer slowed down, endless input, stop after the queue has filled
+    outx = os.path.join(scr, "ignored_out.raw")
+    fo = ["--filter-link", "1", "-o", outx]     # an output destination needs a filter; it is ignored (with a warning) when a check or view is set
+    arms = [["check", "sanity"], ["check", "sanity"] + fo, ["view", "rdh"], ["view", "rdh"] + fo,
+            ["check", "all", "-e", "3"], ["check", "all", "-e", "3"] + fo]
+    proof_broken = not (chk.proof or {}).get("ok", False)
+    nfull = len(arms) if (proof_broken or not quick) else 3
+    for i in range(nfull):
+        a = arms[(i + rng.randrange(len(arms))) % len(arms)] if (quick and not proof_broken) else arms[i]
+        data = b"".join(pk_err) if "-e" in a else b"".join(pk_clean)
+        if "-e" in a:
+            scns.append(Scn("full-queue-cap", a, data, "endless", "0:a.recv=20000,c.recv=300", ("none",)))
+        elif "view" in a:
+            scns.append(Scn("full-queue-close", a, data, "endless", "0:a.recv=20000", ("close", 30000), stdout_mode="close"))
+        else:
+            scns.append(Scn("full-queue-signal", a, data, "endless", "0:a.recv=20000", ("signal", signal.SIGINT, 1.5)))
     # run (scenario runs are timing-sensitive: a few at a time)
     results = core.par_map(lambda t: run_scn(t[1], scr, t[0]), list(enumerate(scns)), workers=4)
     # verdicts
